@@ -696,6 +696,10 @@ any receiver slice value with nil.
 func (r Stack) Replace(x any, idx int) (ok bool) {
 	if r.IsInit() && x != nil {
 		if !r.getState(ronly) {
+			// replace itself does not lock (Reveal calls
+			// it while already holding the receiver's lock).
+			r.lock()
+			defer r.unlock()
 			ok = r.stack.replace(x, idx)
 		}
 	}
